@@ -737,16 +737,17 @@ func reComputedGo(b string) bool {
 }
 
 type scanScenario struct {
-	eco     scanEco
-	set     string // D0 | D1 | M:<id>
-	recs    []*sRec
-	advs    []*sAdv
-	ir      *claircore.IndexReport
-	oracle  bool // is the by-construction expectation defined for every pair?
-	whyNot  string
-	rhelIU  bool
-	nrepos  int
-	repoSet []*sRepo
+	eco        scanEco
+	set        string // D0 | D1 | M:<id>
+	recs       []*sRec
+	advs       []*sAdv
+	ir         *claircore.IndexReport
+	oracle     bool // is the by-construction expectation defined for every pair?
+	whyNot     string
+	rhelIU     bool
+	nrepos     int
+	repoSet    []*sRepo
+	badVersion bool
 }
 
 // scanVersions: n spellings with ranks in the ecosystem's scheme.
@@ -863,6 +864,9 @@ func (sc *scanScenario) expected(pid string, a *sAdv) (int, bool) {
 	eco := sc.eco
 	isVF := eco.id == "rhcc" || eco.id == "gobin" || eco.id == "nodejs"
 	auth := eco.id == "gobin" || eco.id == "nodejs"
+	if sc.badVersion && pid == sc.recs[0].pkg.ID {
+		return 0, false // a version outside the scheme: compared with the model only
+	}
 	if sc.rhelIU && eco.id == "rhel" && a.v.FixedInVersion == "" {
 		return 0, true // configured to ignore advisories without a fix
 	}
@@ -899,6 +903,31 @@ func (sc *scanScenario) expected(pid string, a *sAdv) (int, bool) {
 		}
 	}
 	return n, true
+}
+
+// whyUnlisted names the first reason an advisory is not listed (for the histogram).
+func (sc *scanScenario) whyUnlisted(pid string, a *sAdv) string {
+	interested, joined := false, false
+	for _, r := range sc.recs {
+		if r.pkg.ID != pid {
+			continue
+		}
+		if r.interested {
+			interested = true
+			if canQuery(sc.eco, r) && joins(sc.eco, r, a) {
+				joined = true
+			}
+		}
+	}
+	switch {
+	case !interested:
+		return "no-interested-record"
+	case !joined:
+		return "advisory-of-another-release-or-package"
+	case sc.rhelIU && sc.eco.id == "rhel" && a.v.FixedInVersion == "":
+		return "ignore-unpatched"
+	}
+	return "version-arch-or-gate"
 }
 
 var scanPkgNames = []string{"openssl", "zlib", "libxml2", "requests", "rack", "log4j-core", "golang.org/x/net", "lodash", "a'b", "pkg"}
@@ -1002,6 +1031,11 @@ func (e *env) genScan(eco scanEco) *scanScenario {
 		}
 	}
 	sc.ir = ir
+	if rnd.Chance(1, 12) && (eco.family == "deb" || eco.family == "osv") {
+		// a version the scheme's parser refuses: the matcher's controller fails, the others' results stand
+		sc.recs[0].pkg.Version = rnd.Pick("1.0_bad", "!", "1..x y")
+		sc.badVersion = true
+	}
 	// advisories: about one of the records' release, with one field possibly off
 	nadv := 1 + rnd.Intn(3)
 	for ai := 0; ai < nadv; ai++ {
@@ -1029,8 +1063,14 @@ func (e *env) genScan(eco scanEco) *scanScenario {
 		if eco.id == "rhel" {
 			v.Repo.Name = rhelAdvisoryCPEs[rnd.Intn(len(rhelAdvisoryCPEs))]
 			v.Repo.Key = rhelRepositoryKey
+			if base.repo != nil && rnd.Chance(3, 5) { // mostly about (a prefix of) the record's repository CPE
+				v.Repo.Name = base.repo.name
+				if i := strings.Index(v.Repo.Name, "::"); i > 0 && rnd.Chance(1, 2) {
+					v.Repo.Name = v.Repo.Name[:i]
+				}
+			}
 		}
-		if rnd.Chance(1, 3) { // one field differs
+		if rnd.Chance(1, 4) { // one field differs
 			f := advFields[rnd.Intn(len(advFields))]
 			if eco.id == "rhel" && f == "rname" {
 				f = "rkey"
@@ -1055,9 +1095,9 @@ func (e *env) genScan(eco scanEco) *scanScenario {
 		}
 		// the version part
 		fe := chain[rnd.Intn(len(chain))]
-		if rnd.Chance(1, 2) { // next to a package
+		if rnd.Chance(2, 3) { // at or just above a package
 			for _, c := range chain {
-				if c.rank == base.rank || c.rank == base.rank+1 {
+				if c.rank == base.rank && rnd.Chance(1, 3) || c.rank == base.rank+1 {
 					fe = c
 					if rnd.Chance(1, 2) {
 						break
@@ -1283,6 +1323,9 @@ func (e *env) scanOps(rounds int) {
 						continue
 					}
 					r.Count(fmt.Sprintf("scan:%s:pair:listed=%d", eco.id, n))
+					if n == 0 {
+						r.Count("scan:unlisted:" + sc.whyUnlisted(pid, a))
+					}
 					if n != want {
 						r.Fail("", fmt.Sprintf("scan/%s: advisory #%s is listed %d times for package #%s, by construction expected %d (once per record of the package in a release / repository the advisory is about, whose version is affected): %s",
 							eco.id, a.id, n, pid, want, sc.describe()))
